@@ -125,6 +125,10 @@ func ReadEnvironment(data json.RawMessage) (Environment, error) {
 	env := NewBuilder().Build().(*environment)
 	envelope := env.toEnvelope()
 
+	// the envelope starts with the default number format.. which is shared and so must not be unmarshalled into
+	numberFormat := *envelope.NumberFormat
+	envelope.NumberFormat = &numberFormat
+
 	if err := utils.UnmarshalAndValidate(data, envelope); err != nil {
 		return nil, err
 	}
